@@ -354,7 +354,7 @@ func runPartition(c *harness.Ctx) harness.Result {
 // ---- tag filters ----------------------------------------------------------------------
 
 var byteF = map[string]int64{"b": 1, "bytes": 1, "kb": 1024, "mb": 1 << 20, "": 0}
-var timeF = map[string]int64{"ns": 1, "us": 1000, "ms": 1000000}
+var timeF = map[string]int64{"ns": 1, "us": 1000, "ms": 1000000, "s": 1000000000}
 
 type labelSpec struct {
 	sizeUnit string // unit of key "size" profile-wide (bytes family)
@@ -430,7 +430,7 @@ func mkTagFilter(r *rand.Rand, ls labelSpec) tagFilter {
 		u = []string{"b", "kb", "mb"}[r.Intn(3)]
 		f = byteF[u]
 	case "t":
-		u = []string{"ns", "us", "ms"}[r.Intn(3)]
+		u = []string{"ns", "us", "ms", "s"}[r.Intn(4)]
 		f = timeF[u]
 	default:
 		u, f = "", 1
@@ -438,6 +438,10 @@ func mkTagFilter(r *rand.Rand, ls labelSpec) tagFilter {
 	lo, hi := int64(r.Intn(4)), int64(2+r.Intn(4))
 	if u == "b" || u == "ns" {
 		lo, hi = lo*512, hi*512
+	}
+	if u == "s" {
+		lo = int64(1 + r.Intn(64))
+		hi = lo + int64(r.Intn(8))
 	}
 	form := r.Intn(4)
 	var src string
@@ -506,7 +510,7 @@ func labelSig(s *profile.Sample) string {
 func runTags(c *harness.Ctx) harness.Result {
 	r := c.Rng
 	p := genProfile(r)
-	ls := labelSpec{sizeUnit: []string{"bytes", "kb"}[r.Intn(2)], durUnit: []string{"ms", "us"}[r.Intn(2)]}
+	ls := labelSpec{sizeUnit: []string{"bytes", "kb"}[r.Intn(2)], durUnit: []string{"ms", "us", "ns"}[r.Intn(3)]}
 	for _, s := range p.Sample {
 		for _, k := range []string{"k1", "k2"} {
 			if r.Intn(3) == 0 {
@@ -531,6 +535,11 @@ func runTags(c *harness.Ctx) harness.Result {
 			}
 			if r.Intn(3) == 0 {
 				s.NumLabel["dur"] = []int64{int64(1 + r.Intn(2000))}
+				if ls.durUnit == "ns" {
+					// whole seconds (and their neighbours) in nanoseconds: values that sit exactly on
+					// the bounds of a range given in a coarser unit
+					s.NumLabel["dur"] = []int64{int64(1+r.Intn(64))*1000000000 + []int64{0, 0, 0, 1, -1}[r.Intn(5)]}
+				}
 				s.NumUnit["dur"] = []string{ls.durUnit}
 			}
 			if r.Intn(3) == 0 {
